@@ -77,9 +77,29 @@ def run(tier):
         impl, _, cl = clause.partition(':')
         rep.violation('step:%s:%s:%s' % (c['key'].split('/')[0], impl, cl),
                       'single step %s on %s violates %s' % (c['key'], impl, cl), c)
+    # (D) the frame interrupt's push: one instruction + accepted interrupt with SP at every ROM/RAM/64K edge, through the
+    #     real trace loops of all four simulators; state invariants judged by MachineTrace (c08 mode)
+    from ..drivers import progdrv
+    from . import c06
+    nslots = 1792
+    reps = 1 if tier == 'quick' else 6
+    with mp.get_context('fork').Pool(16) as pool:
+        parts = pool.map(progdrv.int_cases, [(sd * 31 + 7 + 100 * r + k, list(range(k, nslots, 16))) for r in range(reps) for k in range(16)])
+    itr = [t for p in parts for t in p]
+    accepted = sum(t['accepted'] for t in itr)
+    rep.extra['interrupt_push_cases'] = len(itr)
+    rep.extra['interrupt_push_cases_accepted'] = accepted
+    if accepted < len(itr) // 2:
+        raise tlc.MachineryError('vacuous C08 interrupt cases: %d of %d accepted' % (accepted, len(itr)))
+    for t, l, clause in c06.judge_runs(rep, itr, wd, 'MachineTrace[int-push]'):
+        rep.violation('int-push:%s:sp=%d:%s' % (t['pair'], t['sp'], clause),
+                      '%s: %s at PC=%d SP=%d IM=%d T=%d + frame interrupt: %s; observed %s'
+                      % (t['pair'], t['slot'], t['r0'][24], t['sp'], t['r0'][27], t['r0'][25], clause, t['obs'][0]), t)
+    rep.evaluations += len(itr) * 2
     rep.rule = ('paging: every (o7ffd state x port class x value) edge + random histories replayed through real OUT/OUTI/OTIR/'
                 'LD (nn),A instructions on 4 simulators and skoolutils.Memory, each step validated as a Paging128 action; '
-                'steps: every opcode slot from boundary states judged for ranges/ROM/T; distinct_nontrivial = distinct '
+                'steps: every opcode slot from boundary states judged for ranges/ROM/T (48K and locked 128K memory); every slot followed by '
+                'an accepted frame interrupt with SP at the ROM/RAM/64K edges; distinct_nontrivial = distinct '
                 '(impl, action kind, port/region, instruction variant)')
     rmworkdir('c08')
     return rep.finish()
